@@ -19,8 +19,8 @@ TEXTS = {
                      '10-symbol alphabet up to length 4 (5), str_to_lines / escape_str_for_quote directly up to length 5 (6).',
                 note=_ENC + 'assumed: re.Pattern.split returns >= 1 pieces whose concatenation is the input; escaped_len >= 0; the '
                      'evaluator that calls str_to_lines (floor of 10 columns) and escaping are decided by the bounded stand-in only.'),
-    'C03': dict(category='other', engine='bounded', technique=_BOUNDED,
-                text='Bounded: ast.dump of the output equal across 77-117 configurations for the C01 corpus, commented values, stdlib '
+    'C03': dict(category='other', engine='bounded', technique='frame obligations decided by effect analysis over the ast of the real source (one obligation per mutation site, module-level mutable binding, global rebinding, memoising decorator, id() call, settings flow); ' + _BOUNDED,
+                text='Proved on the source (frame): width / ribbon_width / ribbon_frac are arguments of the layout call only, PrettyContext has no width field, the three entry points pass each setting through one pipeline - so the document cannot depend on width or ribbon. Bounded: ast.dump of the output equal across 77-117 configurations for the C01 corpus, commented values, stdlib '
                      'instances, subclass instances and a pretty_call user type; every line indented by a multiple of indent.',
                 note='CPython ast as oracle; bounds in the evidence.'),
     'C04': dict(category='proof', engine='pyvc+bounded', technique=_PYVC + '; bounded reference matcher on top',
@@ -88,24 +88,24 @@ TEXTS = {
                      'invalid-result error escape, with and without trailing comment, signature-mismatch path included. Bounded: every '
                      'single fault position x 6 classes x wraps on all trees of <= 4 (5) invocations: siblings/ancestors unchanged.',
                 note=_ENC + 'the warning text and that ancestors are unaffected are bounded only; _warn_about_bad_printer is a trusted straight-line contract.'),
-    'C15': dict(category='other', engine='bounded', technique=_BOUNDED,
-                text='Bounded-exhaustive: all operation histories of length <= 3 (4) over 60 operations on a 5-class lattice with a diamond, '
+    'C15': dict(category='other', engine='bounded', technique='frame obligations decided by effect analysis over the ast of the real source (one obligation per mutation site, module-level mutable binding, global rebinding, memoising decorator, id() call, settings flow); ' + _BOUNDED,
+                text='Proved on the source (frame): the three registries are the only module-level mutable state of prettyprinter.py and are written only by register_pretty / is_registered. Bounded-exhaustive: all operation histories of length <= 3 (4) over 60 operations on a 5-class lattice with a diamond, '
                      'random histories up to length 12, against the reference dispatch rule of the statement.',
                 note='histories registering one class both directly and by name are outside the statement; one ambiguous flag case accepted either way (DESIGN).'),
-    'C16': dict(category='other', engine='bounded', technique=_BOUNDED + ' (styles x tokens exhaustive)',
-                text='Exhaustive for the finite quantifier styles x tokens (52 x 14 x 3 color modes); bounded for values and for annotated documents '
+    'C16': dict(category='other', engine='bounded', technique='frame obligations decided by effect analysis over the ast of the real source (one obligation per mutation site, module-level mutable binding, global rebinding, memoising decorator, id() call, settings flow); ' + _BOUNDED + ' (styles x tokens exhaustive)',
+                text='Proved on the source (frame): the colour cache of the colored renderer is local to the call, the only non-local writes are the stream and the palette. Exhaustive for the finite quantifier styles x tokens (52 x 14 x 3 color modes); bounded for values and for annotated documents '
                      '(token annotations nested to depth 3 with non-token annotations anywhere): stripped text equals plain text, per-character style, reset at the end.',
                 note='own SGR state machine as oracle; colorful/pygments trusted.'),
     'C17': dict(category='other', engine='bounded', technique=_BOUNDED,
                 text='Bounded: pretty_call / pretty_call_alt argument lists (all with <= 1 argument, random up to 4+3) and generated dataclass / attrs '
                      'class definitions (all with <= 1 field, random up to 3-4) x instances x configurations: callee, argument order, field selection, eval.',
                 note='keyword names fn/ctx cannot be passed to pretty_call by Python itself: outside the quantifier for pretty_call (kept for pretty_call_alt).'),
-    'C18': dict(category='other', engine='bounded', technique=_BOUNDED,
-                text='Bounded: 64 explicit/default combinations of the six settings after every sequence of <= 2 (3) set_default_config calls x all entry '
+    'C18': dict(category='other', engine='bounded', technique='frame obligations decided by effect analysis over the ast of the real source (one obligation per mutation site, module-level mutable binding, global rebinding, memoising decorator, id() call, settings flow); ' + _BOUNDED,
+                text='Proved on the source (frame): pformat / pprint / cpprint call python_to_sdocs(object, **_merge_defaults(each setting under its own name)); the only global rebinding is set_default_config. Bounded: 64 explicit/default combinations of the six settings after every sequence of <= 2 (3) set_default_config calls x all entry '
                      'points (pformat, pprint, cpprint, PrettyPrinter, pretty_repr) x 3 values.',
                 note='pformat under pristine defaults with all settings explicit is the reference.'),
-    'C19': dict(category='other', engine='bounded', technique=_BOUNDED,
-                text='Bounded: 79 corpus entries printed first in fresh interpreters, in whole-corpus orders, and in 48 (1200) in-process sequences with '
+    'C19': dict(category='other', engine='bounded', technique='frame obligations decided by effect analysis over the ast of the real source (one obligation per mutation site, module-level mutable binding, global rebinding, memoising decorator, id() call, settings flow); ' + _BOUNDED,
+                text='Proved on the source (164 frame obligations): every mutation site targets an object created in the same function or a declared frame location and never something reachable from the printed value; no module-level mutable state, global rebinding or memoising decorator outside the declared frame; id() occurs only in the visited-set primitives and the recursion marker. Bounded: 79 corpus entries printed first in fresh interpreters, in whole-corpus orders, and in 48 (1200) in-process sequences with '
                      'allocation churn; deep snapshots of inputs before/after.',
                 note='fresh-interpreter output is the reference.'),
 }
